@@ -1576,15 +1576,10 @@ impl DhtNetworkManager {
             return;
         }
 
-        if let Some(distance) = node.distance.as_ref()
-            && distance.len() == 32
-        {
-            let mut key_bytes = [0u8; 32];
-            key_bytes.copy_from_slice(&distance[..32]);
-            node.cached_dht_key = Some(DhtKey::from_bytes(key_bytes));
-            return;
-        }
-
+        // The position of a peer in the key space is a function of its peer ID.
+        // Never take it from the `distance` field of a remote reply: that field is
+        // attacker-controlled, and trusting it lets any responder place arbitrary
+        // peers next to the target and push closer peers out of the result.
         node.cached_dht_key = Self::parse_peer_id_to_key(&node.peer_id);
     }
 
